@@ -70,14 +70,15 @@ text("C11",
      "deterministic simulation with fault injection (Byzantine-peer input search, liveness and allocation oracles)", "DESIGN.md 4 C11")
 
 add("C02", "fault_enumeration",
-    [{"name": "tamper-sweep", "quick_s": 90, "thorough_s": 900, "quick_runs": 43008, "thorough_runs": 43008 * 8}],
+    [{"name": "tamper-sweep", "quick_s": 90, "thorough_s": 900, "quick_runs": 57344 * 2, "thorough_runs": 57344 * 12}],
     real=["transport (Client, Server, PQ discoverable and hidden handshakes, cookies, key derivation)", "cyclist", "kravatte", "keys (X25519, ML-KEM-512)", "certs"],
-    rule=("the run index enumerates the single-fault space of one handshake: alteration kind (xor / truncate / replace) x handshake message type (5 discoverable + 2 hidden) "
-          "x byte position or truncation length 0..2047 (every message is shorter) x mask family per sweep (sweep 0: single bit 1<<(pos%8); 1: 0xff; 2: 0x80; 3: 0x01; 4+: seeded non-zero); "
-          "replace = the corresponding datagram of an independent handshake (other client, or an earlier attempt from the same address). One sweep = 43008 runs and covers EVERY byte offset and "
+    rule=("the run index enumerates the single-fault space of one handshake: slot (4) x handshake message type (5 discoverable + 2 hidden) x byte position or truncation length 0..2047 "
+          "(every message is shorter) x sweep. Slot 0: xor one byte with the sweep's mask (sweep 0: single bit 1<<(pos%8); 1: 0x80; 2: 0xff; 3: 0x01; 4+: seeded non-zero); slot 1: truncation to pos bytes "
+          "(first sweep; later sweeps: xor with a seeded mask); slot 2: replacement by the corresponding datagram of an independent handshake (other client, or an earlier attempt from the same "
+          "address; 4 variants), other positions xor with a seeded mask; slot 3: the same mask on two neighbouring bytes. One sweep = 57344 runs and covers EVERY byte offset and "
           "EVERY truncation length of every message; positions beyond the message length are vacuous runs (still a completed handshake whose keys are compared). "
           "Non-trivial = the alteration was applied in flight and the receiving party's outcome was judged; distinct = distinct event-log hash."),
-    assumptions=["quick tier: one complete sweep (all offsets, all truncation lengths, 28 replacements, one mask per offset); thorough: 8 sweeps with further mask families",
+    assumptions=["quick tier: two complete sweeps (all offsets with 5 masks each incl. single bit, 0x80 and two seeded ones, all truncation lengths, 28 replacements, all neighbouring byte pairs); thorough: 12 sweeps with further mask families",
                  "substituting a hidden-mode request by another handshake's request makes the server complete the donor's handshake again (replay inside the 5 s freshness window); this is recorded as a probe and not judged, because the statement is about the handshake whose datagram was replaced"])
 text("C02",
      "complete enumeration of single in-flight faults on the handshake: every byte offset (xor) and every truncation length of all 7 handshake message types of both modes, plus replacement by the corresponding datagram of an independent or earlier handshake; oracle: the party that received the altered datagram does not complete (client: Handshake() error; server: no connection published / no session established for it); for every handshake both sides completed: equal session id and directional keys (white-box accessor), directional keys distinct and non-zero, keys pairwise distinct across sessions of the run, first data packet decrypts",
@@ -144,11 +145,13 @@ text("C17",
      "deterministic simulation with fault injection (seeded schedule perturbation + race detector + porcupine linearizability check of recorded histories)", "DESIGN.md 4 C17")
 
 add("C09", "exploration",
-    [{"name": "tube-isolation", "quick_s": 40, "thorough_s": 900}],
-    real=["tubes (Muxer demultiplexing, id choice, reaping, Reliable, Unreliable, frames)"],
-    stub=["transport session under the muxers (simulated MsgConn pair)"])
+    [{"name": "tube-isolation", "quick_s": 40, "thorough_s": 900}, {"name": "app-session-tubes", "quick_s": 12, "thorough_s": 300}],
+    real=["tubes (Muxer demultiplexing, id choice, reaping, Reliable, Unreliable, frames)",
+          "app-session-tubes: hopclient.HopClient (NewHopClient, DialExternalAuthenticator, muxer construction, user authorization, HandleTubes), hopserver session code (newSession, start, newAuthGrantTube), transport client/server, userauth"],
+    stub=["tube-isolation: transport session under the muxers (simulated MsgConn pair)",
+          "app-session-tubes: the UDP socket of transport.DialWithDialer (VerifDial seam inserted by the build step), the server's delegate-proxy unix socket (not started), authorized_keys file system (in-memory fs.FS)"])
 text("C09",
-     "seeded concurrent open/write/close/reopen programs from both muxer roles (several opener workers per side, reliable and unreliable tubes of drawn types, far more opens than live tubes so identifiers are reused) under delay, reordering, duplication, loss and late-packet faults (long delays and verbatim late replays of up to several seconds); every tube INSTANCE has a unique tag and every 64-byte stream cell / every unreliable message carries tag, offset, id, reliability and type; oracle: everything an instance reads comes from exactly one instance on the other side with the same id and reliability (violations are attributed: cross-id, cross-reliability, stale-after-reuse/{reliable,unreliable}, own-data-echoed), Create returns identifiers of the muxer's parity that are not in use, accepted tubes have the peer's parity, Accept never returns more tubes of (id, reliability) than the peer opened (ghost), unreliable reads return exactly one written message (length, header and tail pattern)",
+     "seeded concurrent open/write/close/reopen programs from both muxer roles (several opener workers per side, reliable and unreliable tubes of drawn types, far more opens than live tubes so identifiers are reused) under delay, reordering, duplication, loss and late-packet faults (long delays and verbatim late replays of up to several seconds); every tube INSTANCE has a unique tag and every 64-byte stream cell / every unreliable message carries tag, offset, id, reliability and type; oracle: everything an instance reads comes from exactly one instance on the other side with the same id and reliability (violations are attributed: cross-id, cross-reliability, stale-after-reuse/{reliable,unreliable}, own-data-echoed), Create returns identifiers of the muxer's parity that are not in use, accepted tubes have the peer's parity, Accept never returns more tubes of (id, reliability) than the peer opened (ghost), unreliable reads return exactly one written message (length, header and tail pattern). Second scenario (app-session-tubes): the real hop client logs in to the real hop server session code over the simulated network, then both applications open reliable tubes towards each other at (nearly) the same moment for several rounds (the server through its own newAuthGrantTube, the client as its window-size/exec code does), with loss, duplication, jitter and muxer yields; oracle: tubes alive at the same time in one session have distinct (reliability, id) identities whichever side opened them",
      TB, "deterministic simulation with fault injection (seeded reuse histories and late-packet schedules, instance-tag attribution oracle)", "DESIGN.md 4 C09")
 
 add("C04", "exploration",
